@@ -35,7 +35,9 @@ build_fuzz() {
 case "$1" in
 --setup)
     build
-    build_fuzz
+    # the libFuzzer targets are only needed by thorough tiers (which rebuild them anyway): a
+    # failure here must not fail the setup
+    (build_fuzz) || echo "note: fuzz targets not built during setup" >&2
     exit 0
     ;;
 C[0-9][0-9])
